@@ -286,7 +286,7 @@ def run(ctx):
                 histories.append((ver, pre + [op, ('append', {'z': 'after'})]))
             for sv in (None, '3.0', '2.0'):
                 histories.append((ver, [('colshare', 'c0', sv, {'k0': 'plain'}), ('colmeta', 'c0', 'k1', v()), ('append', {'a': 1.0})]))
-    for _ in range(6000 if thorough else 700):
+    for _ in range(40000 if thorough else 700):
         histories.append((rng.choice(VERSIONS), [gen_op(rng, h) for _ in range(rng.randint(1, 6))]))
     cmds = []
     impl_obs = []
@@ -318,7 +318,7 @@ def run(ctx):
     ctx.coverage['distinct_nontrivial'] = len(set((v, repr(o)) for v, o in histories))
 
     # ---- 3. what the histories built can be written (both formats) and read back, and is not pre-3.0 with 3.0-only data
-    for (ver, ops), g in list(zip(histories, finals))[:(3000 if thorough else 600)]:
+    for (ver, ops), g in list(zip(histories, finals))[:(12000 if thorough else 600)]:
         if not len(g.column):
             continue
         for mode in (h.MODE_ZINC, h.MODE_JSON):
